@@ -50,6 +50,11 @@ func (m *GroupsModifier) Apply(eng flows.Engine, env envs.Environment, sa flows.
 		log(events.NewErrorf("can't add blocked or stopped contacts to groups"))
 		return false
 	}
+	if contact.Status() != flows.ContactStatusActive {
+		// any other non-active contact, i.e. archived, can't be in groups either and would be removed again straight away
+		log(events.NewErrorf("can't add %s contacts to groups", contact.Status()))
+		return false
+	}
 
 	diff := make([]*flows.Group, 0, len(m.groups))
 
